@@ -172,6 +172,32 @@ def gen_driver_cases(ctx):
             if d <= 3 and mode in (None, 'const'):
                 c2 = json.loads(json.dumps(c)); c2['as_func'] = 'const' if mode is None else None; c2['pair_of'] = len(cases) - 1
                 cases.append(c2)
+    # drivers with the delj (Chang-Cooper) switch on: selection only (no migration), so that |w/V| stays in the
+    # well-conditioned band on every interval; constants and constant functions through both drivers
+    for d in range(1, 6):
+        for rep in range(ctx.pick(1, 4)):
+            n = {1: rng.randint(6, 12), 2: rng.randint(4, 7), 3: rng.randint(4, 5), 4: 4, 5: 3}[d]
+            for attempt in range(20):
+                g = numgen.grid(rng, n, kind=rng.choice(['uniform', 'quad', 'random']))
+                pops = [numgen.pop(rng, d, mig=False, beta=(d == 1)) for _ in range(d)]
+                for p in pops:
+                    p['nu'] = numgen.logdy(rng, 0.25, 2, 3)
+                    p['gamma'] = rng.choice([-1, 1]) * lib.dyadic(rng, 2, 8, 2)
+                    p['h'] = rng.choice([0.5, 0.25, 0.75])
+                if all(wv_ok(g, p, None, d) for p in pops):
+                    break
+            else:
+                continue
+            tf = 1 / 128
+            mv = max(max(0.25 / p['nu'], abs(p['gamma']) * 0.25) for p in pops)
+            T = numgen.logdy(rng, 1.2 * tf / mv, 1.9 * tf / mv)
+            mode = rng.choice([None, 'const']) if d <= 3 else 'const'
+            c = {'kind': 'driver', 'shape': [n] * d, 'grid': g, 'pops': pops, 'theta0': lib.dyadic(rng, 0.25, 4, 4), 'tf': tf, 'delj': True,
+                 'T': T, 'phi': numgen.density(rng, n ** d), 'as_func': mode, 'theta_slope': 0.0}
+            cases.append(c)
+            if d <= 3:
+                c2 = json.loads(json.dumps(c)); c2['as_func'] = 'const' if mode is None else None; c2['pair_of'] = len(cases) - 1
+                cases.append(c2)
     return cases
 
 def coq_kcase(c, out):
@@ -236,7 +262,8 @@ def run(ctx):
     tc = gen_tridiag_cases(ctx)
     groups.append(('tridiag', tc, coq_tcase, 'tcheck', TOL, lambda c: 'tridiag n=%d (%s)' % (len(c['a']), c['via'])))
     dc = gen_driver_cases(ctx)
-    groups.append(('driver', dc, coq_dcase, 'dcheck', TOL, lambda c: '%d-pop driver as_func=%s' % (len(c['shape']), c['as_func'])))
+    groups.append(('driver', [c for c in dc if not c['delj']], coq_dcase, 'dcheck', TOL, lambda c: '%d-pop driver as_func=%s' % (len(c['shape']), c['as_func'])))
+    groups.append(('driverdelj', [c for c in dc if c['delj']], coq_dcase, 'dcheck', TOL_DELJ, lambda c: '%d-pop driver as_func=%s delj=on' % (len(c['shape']), c['as_func'])))
     for tag, cases, coqfn, checkfn, tol, describe in groups:
         if tag == 'kernel':
             # two tolerance classes
